@@ -322,6 +322,112 @@ fn start_watchdog() {
     });
 }
 
+/// Engine "blockruns" (C08): COUNTS of consecutive degenerate blocks.  The format allows content blocks of length 0 (older
+/// writers emitted them for empty pieces) and the readers accept them; the current writer never produces one, so no
+/// writer-driven scenario holds a RUN of them.  An archive "file, N empty content blocks, 3 bytes, end" is encoded by the
+/// independent encoder and listed, read, hashed, extracted linearly and repaired: none may crash (a stack overflow
+/// kills the process: the orchestrator reads the progress file), and what is returned is checked.
+/// args: out.json progress.txt N
+pub fn main_blockruns(args: &[String]) {
+    quiet_panics();
+    let n: usize = args[2].parse().unwrap();
+    let progress = |s: &str| std::fs::write(&args[1], s).unwrap();
+    let mut viol: Vec<Value> = vec![];
+    let mut blocks = vec![Block::Start { id: 0, name: b"f".to_vec() }];
+    for _ in 0..n {
+        blocks.push(Block::Content { id: 0, data: vec![] });
+    }
+    blocks.push(Block::Content { id: 0, data: b"abc".to_vec() });
+    let eof = (1 + 8 + 8 + 1) + n as u64 * 17 + 17 + 3;
+    use sha2::Digest;
+    let hash: [u8; 32] = sha2::Sha256::digest(b"abc").into();
+    blocks.push(Block::Eof { id: 0, hash });
+    blocks.push(Block::Start { id: 1, name: b"g".to_vec() });
+    blocks.push(Block::Content { id: 1, data: b"second".to_vec() });
+    blocks.push(Block::Eof { id: 1, hash: sha2::Sha256::digest(b"second").into() });
+    blocks.push(Block::End);
+    let gstart = eof + 41;
+    let index = vec![(b"f".to_vec(), vec![0u64], 3u64, eof), (b"g".to_vec(), vec![gstart], 6u64, gstart + 18 + 17 + 6)];
+    let plain = refcodec::dump_blocks(&blocks, &index);
+    let e = EncPar { layers: 0, recipients: &[], key: [0; 32], nonce: [0; 8], ephemeral: [0; 32], level: 0 };
+    let bytes = refcodec::encode_stream(&plain, &e, &consts());
+    let mut check = |op: &str, r: Result<Result<(), String>, String>| match r {
+        Ok(Ok(())) => {}
+        Ok(Err(d)) => viol.push(json!({"kind": "wrong-result", "op": op, "detail": d, "n": n})),
+        Err(p) => viol.push(json!({"kind": "panic", "op": op, "detail": p, "n": n})),
+    };
+    progress("read");
+    check("read", guarded(|| -> Result<(), String> {
+        let mut rd = ArchiveReader::new(Cursor::new(&bytes[..])).map_err(|e| format!("open: {e:?}"))?;
+        // a reader may stop at an empty block (a read of 0 bytes ends read_to_end): what it returns must be a prefix,
+        // and the announced size must be the index's; the file AFTER the run must be unaffected
+        let mut f = rd.get_file("f".to_string()).map_err(|e| format!("{e:?}"))?.ok_or("f not found")?;
+        let mut got = vec![];
+        f.data.read_to_end(&mut got).map_err(|e| e.to_string())?;
+        if !b"abc".starts_with(&got) || f.size != 3 {
+            return Err(format!("f: {got:?}, size {}", f.size));
+        }
+        let mut g = rd.get_file("g".to_string()).map_err(|e| format!("{e:?}"))?.ok_or("g not found")?;
+        let mut got = vec![];
+        g.data.read_to_end(&mut got).map_err(|e| e.to_string())?;
+        if got != b"second" {
+            return Err(format!("g after the run: {got:?}"));
+        }
+        Ok(())
+    }));
+    progress("hash");
+    check("hash", guarded(|| -> Result<(), String> {
+        let mut rd = ArchiveReader::new(Cursor::new(&bytes[..])).map_err(|e| format!("open: {e:?}"))?;
+        let h = rd.get_hash("f").map_err(|e| format!("{e:?}"))?.ok_or("no hash")?;
+        if h != hash { return Err("hash differs from the stored one".into()); }
+        Ok(())
+    }));
+    progress("linear");
+    check("linear", guarded(|| -> Result<(), String> {
+        let mut rd = ArchiveReader::new(Cursor::new(&bytes[..])).map_err(|e| format!("open: {e:?}"))?;
+        let names = vec!["f".to_string(), "g".to_string()];
+        let mut export: HashMap<&String, Vec<u8>> = names.iter().map(|k| (k, vec![])).collect();
+        mla::helpers::linear_extract(&mut rd, &mut export).map_err(|e| format!("{e:?}"))?;
+        if export[&names[0]] != b"abc" || export[&names[1]] != b"second" {
+            return Err(format!("linear: f={:?} g={:?}", export[&names[0]], export[&names[1]]));
+        }
+        Ok(())
+    }));
+    progress("repair");
+    // (the repair loop prepares its 8 MiB buffer for every content block: 0.4 ms per block; a shorter run is enough for a loop)
+    let short = {
+        let k = n.min(20_000);
+        let mut b2 = vec![blocks[0].clone()];
+        b2.extend(std::iter::repeat(Block::Content { id: 0, data: vec![] }).take(k));
+        b2.extend(blocks[1 + n..].iter().cloned());
+        let eof2 = (1 + 8 + 8 + 1) + k as u64 * 17 + 17 + 3;
+        let g2 = eof2 + 41;
+        let idx2 = vec![(b"f".to_vec(), vec![0u64], 3u64, eof2), (b"g".to_vec(), vec![g2], 6u64, g2 + 18 + 17 + 6)];
+        refcodec::encode_stream(&refcodec::dump_blocks(&b2, &idx2), &e, &consts())
+    };
+    check("repair", guarded(|| -> Result<(), String> {
+        let mut fs = ArchiveFailSafeReader::new(&short[..]).map_err(|e| format!("open: {e:?}"))?;
+        let mut wcfg = ArchiveWriterConfig::new();
+        wcfg.set_layers(Layers::EMPTY);
+        let mut out = ArchiveWriter::from_config(Vec::new(), wcfg).map_err(|e| format!("{e:?}"))?;
+        let status = fs.convert_to_archive(&mut out).map_err(|e| format!("fatal: {e:?}"))?;
+        let _ = format!("{status} {status:?}");
+        let mut rd = ArchiveReader::new(Cursor::new(out.into_raw())).map_err(|e| format!("repaired archive: {e:?}"))?;
+        for (name, want) in [("f", &b"abc"[..]), ("g", &b"second"[..])] {
+            let mut got = vec![];
+            if let Some(mut f) = rd.get_file(name.to_string()).map_err(|e| format!("{e:?}"))? {
+                f.data.read_to_end(&mut got).map_err(|e| e.to_string())?;
+            }
+            if !want.starts_with(&got) {
+                return Err(format!("repair: {name} = {got:?}"));
+            }
+        }
+        Ok(())
+    }));
+    progress("done");
+    write_json(&args[0], &json!({"n": n, "archive_bytes": bytes.len(), "violations": viol}));
+}
+
 pub fn main(args: &[String]) {
     let jobs = read_jsonl(&args[0]);
     let start: usize = args.get(3).and_then(|s| s.parse().ok()).unwrap_or(0);
